@@ -60,6 +60,44 @@ mut("f24-revert-waitgroup-drop-mask", ["C11"], "drop-not-a-cancellation-point",
 mut("f23-mask-after-lock", ["C12"], "drop-not-a-cancellation-point",
     ("src/sync/rwlock.rs", "        let _g = crate::cancel::CancelDisableGuard::new();\n        let mut r = self.rlock.lock().expect(\"rwlock read_unlock\");", "        let mut r = self.rlock.lock().expect(\"rwlock read_unlock\");\n        let _g = crate::cancel::CancelDisableGuard::new();"))
 
+# ---- F25: revert (Queue::drop of the timer entry list frees the stub although its Entry handle may be alive)
+mut("f25-revert-queue-drop-frees-stub", ["C19"], "refs/queue-drop/free-only-at-zero",
+    ("may_queue/src/mpsc_list_v1.rs", "            (*tail).refs -= 1;\n            if (*tail).refs == 0 {\n                let _: Box<Node<T>> = Box::from_raw(tail);\n            }\n        }\n    }\n}\n\n#[cfg(test)]",
+     "            (*tail).refs -= 1;\n            let _: Box<Node<T>> = Box::from_raw(tail);\n        }\n    }\n}\n\n#[cfg(test)]"))
+ben("f25-queue-drop-helper", ["C19"],
+    ("may_queue/src/mpsc_list_v1.rs", "            (*tail).refs -= 1;\n            if (*tail).refs == 0 {\n                let _: Box<Node<T>> = Box::from_raw(tail);\n            }\n        }\n    }\n}\n\n#[cfg(test)]",
+     "            (*tail).refs -= 1;\n            let last = (*tail).refs == 0;\n            if last {\n                drop(Box::from_raw(tail));\n            }\n        }\n    }\n}\n\n#[cfg(test)]"))
+
+# ---- F26: revert (the join in Cqueue::check_panic is a cancellation point)
+mut("f26-revert-check-panic-join-mask", ["C14"], "every-child-join-cancel-masked",
+    ("src/cqueue.rs", "            let _g = CancelDisableGuard::new();\n            handle.join()", "            handle.join()"))
+mut("f26-guard-dropped-before-join", ["C14"], "every-child-join-guard-lives-across",
+    ("src/cqueue.rs", "            let _g = CancelDisableGuard::new();\n            handle.join()", "            let _ = CancelDisableGuard::new();\n            handle.join()"))
+
+# ---- F27: revert (Park::drop / spsc Park::drop yield without masking the cancel)
+mut("f27-revert-park-drop-mask", ["C09", "C12"], "drop-not-a-cancellation-point",
+    ("src/park.rs", "            let _g = (!std::thread::panicking()).then(crate::cancel::CancelDisableGuard::new);\n", ""))
+mut("f27-revert-spsc-park-drop-mask", ["C09"], "drop-not-a-cancellation-point",
+    ("src/sync/spsc.rs", "            let _g = (!std::thread::panicking()).then(crate::cancel::CancelDisableGuard::new);\n", ""))
+mut("f27-mask-only-while-panicking", ["C09"], "drop-not-a-cancellation-point",
+    ("src/park.rs", "            let _g = (!std::thread::panicking()).then(crate::cancel::CancelDisableGuard::new);\n", "            let _g = (std::thread::panicking()).then(crate::cancel::CancelDisableGuard::new);\n"))
+ben("f27-unconditional-mask", ["C09", "C12"],
+    ("src/park.rs", "            let _g = (!std::thread::panicking()).then(crate::cancel::CancelDisableGuard::new);\n", "            let _g = crate::cancel::CancelDisableGuard::new();\n"))
+
+# ---- F29: revert (sleep until the next timer relative to a stale clock sample)
+mut("f29-revert-timer-thread-stale-now", ["C08"], "sleep/relative-to-fresh-clock",
+    ("src/timeout_list.rs", "                    let elapsed = now().saturating_sub(start);\n                    if time > elapsed {\n                        thread::park_timeout(Duration::from_nanos(time - elapsed));\n                    }",
+     "                    thread::park_timeout(Duration::from_nanos(time));"))
+mut("f29-revert-select-stale-now", ["C18", "C08"], "sleep/relative-to-fresh-clock",
+    ("src/io/sys/unix/epoll.rs", "        let next_expire = next_expire.map(|t: u64| t.saturating_sub(now().saturating_sub(start)));\n", "        let _ = start;\n"))
+mut("f29-elapsed-sampled-before-handlers", ["C08"], "sleep/relative-to-fresh-clock",
+    ("src/timeout_list.rs", "            let start = now();\n            match self.timer_list.schedule_timer(start, f) {\n                Some(time) => {",
+     "            let start = now();\n            let elapsed = now().saturating_sub(start);\n            match self.timer_list.schedule_timer(start, f) {\n                Some(time) => {"),
+    ("src/timeout_list.rs", "                    let elapsed = now().saturating_sub(start);\n                    if time > elapsed {", "                    if time > elapsed {"))
+ben("f29-deadline-form", ["C08"],
+    ("src/timeout_list.rs", "                    let elapsed = now().saturating_sub(start);\n                    if time > elapsed {\n                        thread::park_timeout(Duration::from_nanos(time - elapsed));\n                    }",
+     "                    let deadline = start.saturating_add(time);\n                    let cur = now();\n                    if deadline > cur {\n                        thread::park_timeout(Duration::from_nanos(deadline - cur));\n                    }"))
+
 # ---- F18: revert (nested run while the wait_kernel guard is held)
 mut("f18-revert-nested-run-under-guard", ["C01", "C02"], "no-nested-run-under-guard",
     ("src/park.rs", "                drop(g);\n                // here may have recursive call for subscribe", "                let _keep = &g;\n                // here may have recursive call for subscribe"))
